@@ -197,6 +197,21 @@ def run(chk):
             return "overrides exactly " + str(list(pk))
         chk.run("C12.R3", f"{P}:_update_eq_params_dict", cfg, go, construct="update")
 
+    # the caller's value of a batched key may itself have the shape of a batch (e.g. parameters initialised from a first
+    # batch): the override does not depend on what the current value looks like
+    def go_stale():
+        import numpy as np
+        stale = AT(("B", 1), np.array([Poly.atom(('P', 'nu_previous_batch', (), frozenset({"B"}), False))], dtype=object))
+        params = E.params({'nu': stale, 'th': Pm('th')})
+        bd = E.param_batch(('nu',))
+        r = up(freeze(params), freeze(bd))
+        v = to_at(r.fields['eq_params']['nu'])
+        if not (v.axes == ("B", 1) and v.data[0] == to_at(bd['nu']).data[0]):
+            raise Violation("nu", f"eq_params['nu'] after the update is {v}", f"the rows of the current batch {to_at(bd['nu'])}")
+        return "a value that already has the batch shape is replaced by the current batch"
+    chk.run("C12.R3", f"{P}:_update_eq_params_dict", {"params": "Params", "batched": ["nu"], "current_value": "an earlier batch of the same shape"},
+            go_stale, construct="update")
+
     # ---------------- R7 heterogeneity
     for eq_type in ('ODE', 'statio_PDE', 'nonstatio_PDE'):
         maps = [("declared+None", {'nu': 'fn', 'th': None}), ("declared+missing", {'nu': 'fn'}), ("all", {'nu': 'fn', 'th': 'fn'}),
